@@ -31,7 +31,7 @@ func checkRWReadDir(c *Ctx) {
 		}
 		rs, _ := loop.(*ast.RangeStmt)
 		if rs == nil {
-			c.softUndecided("readdir: fsMutable.ReadDir no longer writes entries inside a range loop: the ordering rules cannot be applied")
+			c.shapeChanged("readdir.shape", key, p.Pos(w.Pos()), f.ID, "fsMutable.ReadDir no longer writes entries inside a range loop: the ordering rules cannot be applied")
 			return
 		}
 		if _, isMap := info.TypeOf(rs.X).Underlying().(*types.Map); isMap {
@@ -51,7 +51,7 @@ func checkRWReadDir(c *Ctx) {
 			idVar, _ = info.Defs[valID].(*types.Var)
 		}
 		if sliceVar == nil || idVar == nil {
-			c.softUndecided("readdir: the listing loop of fsMutable.ReadDir does not range `for _, id := range <slice variable>` (ranges over `" + sliceDesc + "`)")
+			c.shapeChanged("readdir.shape", key, p.Pos(rs.Pos()), f.ID, "the listing loop of fsMutable.ReadDir does not range `for _, id := range <slice variable>` (ranges over `"+sliceDesc+"`)")
 			return
 		}
 		// (b) sorted before the loop, ascending
